@@ -11,12 +11,16 @@ m = {"version": 1, "setup_cmd": "cd /verif && ./setup.sh",
      "engines": [
         {"name": "pyvc", "path": "pyvc/", "serves_properties": sorted(claims['claimed'].keys()),
          "kind_free_text": "self-built deductive verifier for a Python subset: AST of /repo -> path-wise symbolic execution with loop invariants and modular callee contracts -> verification conditions discharged by z3 (cvc5 for unknowns)"},
-        {"name": "tnnorm", "path": "pyvc/tnnorm.py", "serves_properties": [p for p in ("C03", "C05", "C08", "C16") if p in claims['claimed']],
-         "kind_free_text": "second back end: decides equality of tensor-network (multilinear) expressions built by the real code against einsum specifications, for free tensor symbols of all sizes (normal form + matching)"},
+        {"name": "tnnorm", "path": "pyvc/tnnorm.py", "serves_properties": [p for p in ("C03", "C05", "C08", "C10", "C14", "C16") if p in claims['claimed']],
+         "kind_free_text": "second back end: decides equality of tensor-network (multilinear) expressions built by the real code against einsum specifications, for free tensor symbols of all sizes (normal form + matching; reshape legs for split/flatten/kron)"},
+        {"name": "npalias", "path": "pyvc/npalias.py", "serves_properties": [p for p in ("C20",) if p in claims['claimed']],
+         "kind_free_text": "ownership / aliasing domain for numpy arrays (buffer identity, object identity, memory layout, WRITEABLE flag) interpreted by pyvc; frame, freshness and layout obligations are predicates over its event log"},
+        {"name": "cas", "path": "pyvc/cas.py", "serves_properties": [p for p in ("C12",) if p in claims['claimed']],
+         "kind_free_text": "sympy back end for the kernel identities of the spectral-density integrands extracted from the real closures"},
         {"name": "rg", "path": "pyvc/rg.py", "serves_properties": [p for p in ("C19",) if p in claims['claimed']],
          "kind_free_text": "thread-modular (Owicki-Gries / monitor) obligations for util.ProgressBar at statement granularity, discharged by z3"},
         {"name": "replay", "path": "replay/", "serves_properties": sorted(claims['claimed'].keys()),
-         "kind_free_text": "turns solver counter-models into concrete inputs and runs the real code under /venv/bin/python"}],
+         "kind_free_text": "turns solver counter-models into concrete inputs and runs the real code under /venv/bin/python; the same functions on their built-in finite input sets are the BOUNDED native sweeps of the thorough tier (and the bounded stand-in of the quick tier when a target is undecided); never counted as proved"}],
      "checks": [], "not_applicable": [], "notes": claims.get('notes', '')}
 for p in props:
     pid = p['id']
